@@ -33,7 +33,13 @@ int main(int argc, char** argv) {
             }
             const uint64_t seq = dz::fnv(ref->probe());
             for (int nt : tcounts) {
-                std::unique_ptr<dz::Box> shared(kv.second(p));
+                // the shared object is, in turn, freshly constructed (2 threads), a copy of a copy of a fresh object (4 threads) and the
+                // target of an assignment from a fresh object (8 threads): a copy operation that leaves a cache or a table to be
+                // filled by the first const use makes that first use a write to the shared object
+                std::unique_ptr<dz::Box> shared;
+                if (nt == 2) shared.reset(kv.second(p));
+                else if (nt == 4) { std::unique_ptr<dz::Box> f(kv.second(p)), c1(f->copy()); shared.reset(c1->copy()); }
+                else { std::unique_ptr<dz::Box> f(kv.second(p)); shared.reset(kv.second(1 - p)); shared->assign(*f); }
                 const dz::Box& S = *shared;
                 std::atomic<int> ok(0);
                 std::vector<std::thread> ts;
